@@ -10,13 +10,22 @@ CONFIG = {
               "from cursor 0 are 0..c-1 cyclically: duplicate-free while at most c were handed out, every index once per "
               "completed cycle, no empty page, size min(amount, rest of the cycle)), C17_concurrent_disjoint (the same for "
               "concurrent runs with other keys mixed in), C17_valid_event_step / C17_exec_all_run (the extracted validator is "
-              "the step relation); refuted for the old read/compute/write protocol: C17_refuted_race (concrete run, vm_compute)",
+              "the step relation); refuted for the old read/compute/write protocol: C17_refuted_race (concrete run, vm_compute). "
+              "WHICH requests share a key (finding K12, repaired by F19 = repo_patches/F19-enum-cursor-key-set.patch: the key is enum_key A = the "
+              "assumption list sorted by feature with repeated literals removed, Model/Enumerate.v): C17_key_is_set (a request whose list has the "
+              "same SET of literals as a consistent list A - any order, any repetition - has the key of A), C17_same_set_one_cycle (sequential "
+              "requests for one set in any spellings page through ONE cycle: the statement of C17_disjoint_within_cycle for all of them together), "
+              "C17_same_set_concurrent (the same for every interleaving of the repaired protocol), C17_key_v0_refuted (the code before F19, key = "
+              "sorted LIST: `enum a 1` and `enum a 1 1` both get [0;1]; with F19 the second gets [2;3])",
     "assumptions": [
         "configurations are abstracted to their index in the fixed enumeration order of their assumption key (the order itself is C06's model); count(A) > 0 and amount > 0 where the theorems say so",
         "atomicity of the reserve step = mutual exclusion of std::sync::Mutex; the compute step touches only the worker's own clone (checked by the controlled runs: every schedule of the lock/unlock points gives the model's answers)",
         "hook H3 (repo_patches/H3-cursor-sched.patch) only adds scheduling points; without it the check runs the free-running stress mode only and says so in driver_stats (blocks_hook_H3_absent_stress_only)",
         "controlled runs: all schedules of the cursor-lock acquisition/release points for 2 and 3 requests (same key, mixed keys; 2..4 workers), random schedules for 4..6 requests, amounts from {1,2,3,5,c-1,c,c+1}, generated models with 5..200 models under A and one with 14 free features; stress: 8 x enum 2000 on 14 free features with 2..4 free-running threads",
-        "request literal lists are duplicate-free except in the one 'dupset' case, which records the known finding K12 (cursor keyed by the literal list, not the set: [1] and [1,1] page independently)",
+        "every third request of the controlled runs repeats one or two of its literals (all requests permute them); the 'dupset' case pages the sets {1} and {2,-3} "
+        "through eight spellings sequentially: one cursor per set (oracle: nothing twice within a cycle, a sequential order exists, final cursor; H3 snapshot: no "
+        "cursor entry besides the two keys); the checker recomputes every request's key with the extracted enum_key (DIFF request-key otherwise). "
+        "Without repo_patches/F19-enum-cursor-key-set.patch applied to /repo this check reports VIOLATION (enum:duplicate-literal-key; K12)",
         "the oracle compares with the implementation's own sequential full cycle from cursor 0 (ref) and needs C06 (that cycle has count(A) distinct configurations; count(A) from the truth table of the source formula)",
     ],
     "rule": "one case = one (model, request list) with all its runs (every enumerated or random schedule, or one free-running "
